@@ -90,26 +90,36 @@ endif
 def render(spec: T.Dict[str, T.Any], sd: str) -> None:
     os.makedirs(sd, exist_ok=True)
     sub = spec.get('sub')
-    with open(os.path.join(sd, 'meson.build'), 'w') as f:
-        f.write(BUILD_TMPL.format(name=q(TOP), proj='', defaults=lit(spec.get('top_defaults', [])),
-                                  optnames=lit([o['name'] for o in spec['top']]),
-                                  subproject=f"subproject({q(SUB)})" if sub is not None else ''))
+    _write_atomic(os.path.join(sd, 'meson.build'),
+                  BUILD_TMPL.format(name=q(TOP), proj='', defaults=lit(spec.get('top_defaults', [])),
+                                    optnames=lit([o['name'] for o in spec['top']]),
+                                    subproject=f"subproject({q(SUB)})" if sub is not None else ''))
     write_options(os.path.join(sd, 'meson.options'), spec['top'])
     if sub is not None:
         d = os.path.join(sd, 'subprojects', SUB)
         os.makedirs(d, exist_ok=True)
-        with open(os.path.join(d, 'meson.build'), 'w') as f:
-            f.write(BUILD_TMPL.format(name=q(SUB), proj=SUB, defaults=lit(spec.get('sub_defaults', [])),
-                                      optnames=lit([o['name'] for o in sub]), subproject=''))
+        _write_atomic(os.path.join(d, 'meson.build'),
+                      BUILD_TMPL.format(name=q(SUB), proj=SUB, defaults=lit(spec.get('sub_defaults', [])),
+                                        optnames=lit([o['name'] for o in sub]), subproject=''))
         write_options(os.path.join(d, 'meson.options'), sub)
+
+
+def _write_atomic(path: str, text: str) -> None:
+    old = None
+    if os.path.exists(path):
+        with open(path) as f:
+            old = f.read()
+    if old == text:
+        return
+    tmp = path + '.tmp'
+    with open(tmp, 'w') as f:
+        f.write(text)
+    os.replace(tmp, path)
 
 
 def write_options(path: str, opts: T.List[T.Dict[str, T.Any]]) -> None:
     # write-then-rename so that an option-file "edit" is itself atomic
-    tmp = path + '.tmp'
-    with open(tmp, 'w') as f:
-        f.write(''.join(opt_stmt(o) for o in opts))
-    os.replace(tmp, path)
+    _write_atomic(path, ''.join(opt_stmt(o) for o in opts))
 
 
 def cli_value(v: T.Any) -> str:
@@ -247,10 +257,9 @@ def apply_edit(spec: T.Dict[str, T.Any], ed: T.Dict[str, T.Any]) -> None:
 
 
 def write_edit(spec: T.Dict[str, T.Any], sd: str, where: str) -> None:
-    if where == 'top':
-        write_options(os.path.join(sd, 'meson.options'), spec['top'])
-    else:
-        write_options(os.path.join(sd, 'subprojects', SUB, 'meson.options'), spec['sub'])
+    """An option-file edit; the build file's list of option names follows it
+    (a build file may only name options that exist)."""
+    render(spec, sd)
 
 
 def d_args(assign: T.Dict[str, str]) -> T.List[str]:
